@@ -16,7 +16,10 @@ RULE = (
     "loop/loop_body/foreach/enumerate/loop_until(ValueAtMostConstraint, cleanup)/qubit gates/measure into array futures, "
     "loop-indexed futures, registers/flush at every top-level position; nesting <= 3 (quick) or 4, scripted measurement "
     "outcomes.  Non-trivial = executes a conditional both ways or a loop with >=2 iterations, and has >=1 flush "
-    "separating a definition from a later use (>=2 flushes); distinct by AST hash"
+    "separating a definition from a later use (>=2 flushes); distinct by AST hash.  After every flush each kept Future/RegFuture "
+    "handle is read on the host through a generated form (int(), ==/!=, +/-, bool/if, comparisons, hash/dict key, */neg/abs/%, "
+    "str, a fresh handle, .value) before its .value is touched; labels hostread:* count the forms and the reads of a handle "
+    "whose entry changed since the host last read it"
 )
 ASSUMPTIONS = [
     "controller = repo Executor + harness subclass supplying gate/measure callbacks; outcomes scripted identically on both sides",
@@ -26,6 +29,48 @@ ASSUMPTIONS = [
 SHARDS = {"quick": 4, "thorough": 16}
 
 KF_REG = "regfuture-across-flush"
+
+# How the host reads a kept handle after a flush ("When the value property has a concrete value, the Future behaves
+# like an int"): each form is tried BEFORE the handle's `.value` is touched in that flush, because `.value`/`str()`
+# may refresh what the handle has cached.  The expected results are computed from the direct evaluator's value only.
+READ_FORMS = ["value", "str", "int", "eq", "add", "bool", "cmp", "hash", "mulneg", "fresh"]
+_OP_FORMS = frozenset(READ_FORMS) - {"value", "str", "fresh"}
+
+
+def host_read(form: str, h: Any, want: int, fresh=None) -> str:
+    """Read handle `h` on the host through `form`; returns '' or a description of the disagreement with `want`."""
+    if form == "int":
+        got = [int(h)]
+        exp = [want]
+    elif form == "eq":
+        got = [h == want, h != want, h == want + 1, h != want - 1]
+        exp = [True, False, False, True]
+    elif form == "add":
+        got = [h + 0, 1 + h, h - 1]
+        exp = [want, want + 1, want - 1]
+    elif form == "bool":
+        got = [bool(h), (1 if h else 0)]
+        exp = [want != 0, (1 if want != 0 else 0)]
+    elif form == "cmp":
+        got = [h <= want, h >= want, h < want, h > want, h < want + 1, h > want - 1]
+        exp = [True, True, False, False, True, True]
+    elif form == "hash":
+        got = [hash(h), {want: "hit"}.get(h, "miss")]
+        exp = [hash(want), "hit"]
+    elif form == "mulneg":
+        got = [h * 1, -h, abs(h), h % 7, h // 1]
+        exp = [want, -want, abs(want), want % 7, want]
+    elif form == "str":
+        got = [str(h)]
+        exp = [str(want)]
+    elif form == "fresh":
+        got = [int(fresh())]
+        exp = [want]
+    else:
+        return ""
+    if got != exp or [type(g) for g in got] != [type(e) for e in exp]:
+        return f"{form}: host gets {got}, the controller's value {want} requires {exp}"
+    return ""
 
 
 def gen_opts(ctx_or_open, tier="quick"):
@@ -104,6 +149,9 @@ def check(prog, open_keys=()) -> Dict[str, Any]:
     binding: Dict[int, int] = {}
     state = {"ev_pos": 0}
     case = prog
+    reads = list(prog.get("host_reads") or ["value"])
+    last_seen: Dict[int, Any] = {}  # id(handle) -> value it had when the host last read it
+    rinfo = {"forms": set(), "op_after_change": 0, "op_reads": 0}
 
     def on_flush(k):
         snap = dres.snapshots[k]
@@ -124,11 +172,27 @@ def check(prog, open_keys=()) -> Dict[str, Any]:
             if host != list(want):
                 raise Failure("host-array", case, f"flush {k}: host reads array {aid} as {host}, controller/direct value {want}")
         # kept Future handles
-        for ref, f in run.futures:
+        for j, (ref, f) in enumerate(run.futures):
             a, i = ref[1], ref[2]
             if a not in snap["arrays"]:
                 continue
             want = snap["arrays"][a][i]
+            form = reads[(k + j) % len(reads)]
+            if want is not None and form != "value":
+                # the handle used as an int, before anything else touches it in this flush
+                try:
+                    bad = host_read(form, f, want, fresh=lambda: run.arrays[a].get_future_index(i))
+                except Exception as e:
+                    raise Failure("host-future-op-raises", case, f"flush {k}: Future for array {a}[{i}] holding {want}, read as {form}, raised {type(e).__name__}: {e}")
+                if bad:
+                    was = last_seen.get(id(f), "never read")
+                    raise Failure("host-future-op", case, f"flush {k}: Future handle for array {a}[{i}] (value at its previous host read: {was}) used as an int: {bad}")
+                rinfo["forms"].add(form)
+                if form in _OP_FORMS:
+                    rinfo["op_reads"] += 1
+                    if id(f) in last_seen and last_seen[id(f)] is not None and last_seen[id(f)] != want:
+                        rinfo["op_after_change"] += 1
+            last_seen[id(f)] = want
             try:
                 got = f.value
             except Exception as e:
@@ -136,12 +200,21 @@ def check(prog, open_keys=()) -> Dict[str, Any]:
             if got != want:
                 raise Failure("host-future", case, f"flush {k}: Future handle for array {a}[{i}] reads {got}, controller/direct value {want}")
         # registers
-        for rid, h in run.regs.items():
+        for j, (rid, h) in enumerate(run.regs.items()):
             want = snap["regs"].get(rid)
             if rid in seg_regs:
                 got = ex._get_register(app, h.reg)
                 if got != want:
                     raise Failure("ctrl-register", case, f"flush {k}: controller register {h.reg} (RegFuture {rid}) is {got}, direct execution gives {want}")
+            form = reads[(k + j) % len(reads)]
+            if want is not None and form in _OP_FORMS:
+                try:
+                    bad = host_read(form, h, want)
+                except Exception as e:
+                    raise Failure("host-register-op-raises", case, f"flush {k}: RegFuture {rid} ({h.reg}) holding {want}, read as {form}, raised {type(e).__name__}: {e}")
+                if bad:
+                    raise Failure("host-register-op", case, f"flush {k}: RegFuture {rid} ({h.reg}) used as an int: {bad}")
+                rinfo["forms"].add("reg-" + form)
             hv = h.value
             if hv != want:
                 raise Failure("host-register", case, f"flush {k}: RegFuture {rid} ({h.reg}) reads {hv} on the host, direct execution gives {want}")
@@ -179,7 +252,24 @@ def check(prog, open_keys=()) -> Dict[str, Any]:
         raise Failure(f"{kind}:{type(e).__name__}:{where}", case, f"in-domain program: {type(e).__name__}: {msg}")
     if run.n_flush != len(dres.snapshots):
         raise Failure("flush-count", case, "flush count differs")
-    return dres.info
+    info = dict(dres.info)
+    info["host_read_forms"] = sorted(rinfo["forms"])
+    info["op_reads"] = rinfo["op_reads"]
+    info["op_after_change"] = rinfo["op_after_change"]
+    return info
+
+
+def st_case(opts):
+    """a host program plus the way the host reads its kept handles after each flush (cycled over flushes x handles)"""
+    from hypothesis import strategies as st
+
+    @st.composite
+    def build(draw):
+        prog = dict(draw(hp.st_program(opts)))
+        prog["host_reads"] = draw(st.lists(st.sampled_from(READ_FORMS), min_size=1, max_size=4))
+        return prog
+
+    return build()
 
 
 def shard(ctx: Ctx) -> None:
@@ -207,9 +297,12 @@ def shard(ctx: Ctx) -> None:
             labels.append("branch-both-ways")
         if info["max_iters"] >= 2:
             labels.append("loop>=2")
+        labels += ["hostread:" + f for f in info["host_read_forms"]]
+        if info["op_after_change"]:
+            labels.append("hostread:int-operator-on-handle-whose-entry-changed-since-last-read")
         stt.case(prog["stmts"], nt, labels, sample=prog if len(str(prog)) < 900 else None)
 
-    ctx.search(hp.st_program(opts), body, n, name="c05")
+    ctx.search(st_case(opts), body, n, name="c05")
 
 
 def replay(case):
